@@ -2,6 +2,10 @@ package diam
 
 import (
 	"io"
+	"net"
+
+	"github.com/fiorix/go-diameter/v4/diam/datatype"
+	"github.com/fiorix/go-diameter/v4/diam/dict"
 )
 
 // zzReader is a plain in-memory reader (like bytes.Reader, without the extra interfaces).
@@ -37,3 +41,248 @@ func zzB2U(b bool) uint64 {
 	}
 	return 0
 }
+
+// zzLegalLen is the reference "payload length legal for the type" predicate (DESIGN B.2),
+// for the fixed-width types; other types accept any length here.
+func zzLegalLen(ty datatype.TypeID, n int) bool {
+	switch ty {
+	case datatype.Unsigned32Type, datatype.Integer32Type, datatype.EnumeratedType, datatype.Float32Type, datatype.TimeType, datatype.IPv4Type:
+		return n == 4
+	case datatype.Unsigned64Type, datatype.Integer64Type, datatype.Float64Type:
+		return n == 8
+	case datatype.IPv6Type:
+		return n == 16
+	}
+	return true
+}
+
+// zzFrameFixed places k AVP images of padded sizes p[i] (case-split) in a symbolic body and assumes
+// only that each declared Length is consistent with its slot: hdr <= L <= p and pad4(L) == p.
+// Everything else (codes, flags, vendor ids, payload bytes, the exact L) stays symbolic.
+func zzFrameFixed(body []byte, sizes []int) []zzRec {
+	recs := make([]zzRec, len(sizes))
+	off := 0
+	for i, p := range sizes {
+		b := body[off : off+p]
+		l := int(b[5])<<16 | int(b[6])<<8 | int(b[7])
+		hdr := 8
+		var vendor uint32
+		if b[4]&0x80 != 0 {
+			hdr = 12
+		}
+		vAssume(l >= hdr && l <= p && l > p-4)
+		if hdr == 12 {
+			vendor = zzBE32(b[8:12])
+		}
+		recs[i] = zzRec{off: off, hdr: hdr, l: l, code: zzBE32(b[0:4]), flags: b[4], vendor: vendor}
+		off += p
+	}
+	return recs
+}
+
+func zzMessageBytes(body []byte, flags uint8, cmd, app uint32) []byte {
+	n := 20 + len(body)
+	b := make([]byte, n)
+	b[0] = 1
+	b[1], b[2], b[3] = byte(n>>16), byte(n>>8), byte(n)
+	b[4] = flags
+	b[5], b[6], b[7] = byte(cmd>>16), byte(cmd>>8), byte(cmd)
+	b[8], b[9], b[10], b[11] = byte(app>>24), byte(app>>16), byte(app>>8), byte(app)
+	copy(b[20:], body)
+	return b
+}
+
+// zzKnownCommand fixes the dictionary's answer for the message's command: defined, with rules.
+// (Unknown commands and rule-less commands are rejected before any AVP is looked at: C03.)
+func zzKnownCommand(d *dict.Parser, app, cmd uint32) {
+	c, err := d.FindCommand(app, cmd)
+	vAssume(err == nil && len(c.Request.Rule) > 0)
+}
+
+func zzBE32(b []byte) uint32 {
+	return uint32(b[0])<<24 | uint32(b[1])<<16 | uint32(b[2])<<8 | uint32(b[3])
+}
+
+func zzFlag(tag string) bool { return vChoice(tag, 2) == 1 }
+
+func zzBytesEq(a, b []byte, label string) {
+	vAssert(len(a) == len(b), label+" (length)")
+	if len(a) == len(b) {
+		for i := range a {
+			vAssert(a[i] == b[i], label)
+		}
+	}
+}
+
+type zzRecWriter struct {
+	got   []byte
+	calls int
+}
+
+func (w *zzRecWriter) Write(p []byte) (int, error) {
+	w.calls++
+	w.got = append(w.got, p...)
+	return len(p), nil
+}
+
+type zzAccept struct {
+	c   net.Conn
+	err error
+}
+
+// zzTempErr is a transient accept failure: temporary, and either a timeout or not (EMFILE / ENFILE /
+// EINTR are temporary without being timeouts)
+type zzTempErr struct{ timeout bool }
+
+func (e zzTempErr) Timeout() bool { return e.timeout }
+
+type zzListener struct {
+	ch      chan zzAccept
+	accepts int
+	closed  bool
+}
+
+func (l *zzListener) Accept() (net.Conn, error) {
+	l.accepts++
+	a := <-l.ch
+	return a.c, a.err
+}
+
+func (l *zzListener) Close() error { l.closed = true; return nil }
+
+func (l *zzListener) Addr() net.Addr { return zzNamedAddr{"192.0.2.10:3868"} }
+
+// zzNetErr: a net.Error that is temporary or permanent and, independently, a timeout or not
+// (EAGAIN / EINTR / ENOBUFS are temporary without being timeouts; an expired deadline is both)
+type zzNetErr struct{ temp, timeout bool }
+
+func (e *zzNetErr) Error() string { return "zz transport error" }
+
+func (e *zzNetErr) Timeout() bool { return e.timeout }
+
+func (e *zzNetErr) Temporary() bool { return e.temp }
+
+// zzFaultyWriter accepts a case-split part of each write and reports a case-split outcome.
+type zzFaultyWriter struct {
+	got      []byte
+	calls    int
+	sum      int
+	dead     bool // a permanent error was reported
+	afterErr int  // writes attempted after a permanent error
+	streams  []uint
+	lastTemp bool // the most recent call reported a temporary error
+	timeouts bool // errors of this transport also report Timeout() (case-split once per path)
+}
+
+func (w *zzFaultyWriter) Write(p []byte) (int, error) {
+	w.calls++
+	if w.dead {
+		w.afterErr++
+	}
+	// bytes accepted: 0, 1, half, all but one, all
+	var wn int
+	switch vChoice("accepted", 5) {
+	case 0:
+		wn = 0
+	case 1:
+		wn = 1
+	case 2:
+		wn = len(p) / 2
+	case 3:
+		wn = len(p) - 1
+	case 4:
+		wn = len(p)
+	}
+	if wn > len(p) {
+		wn = len(p)
+	}
+	if wn < 0 {
+		wn = 0
+	}
+	w.got = append(w.got, p[:wn]...)
+	w.sum += wn
+	outcome := vChoice("outcome", 3) // 0 nil, 1 temporary, 2 permanent
+	w.lastTemp = outcome == 1
+	if outcome == 0 {
+		// io.Writer contract: a short write reports an error
+		vAssume(wn == len(p))
+		return wn, nil
+	}
+	if outcome == 2 {
+		w.dead = true
+		return wn, &zzNetErr{temp: false, timeout: w.timeouts}
+	}
+	return wn, &zzNetErr{temp: true, timeout: w.timeouts}
+}
+
+type zzFaultyStreamWriter struct{ zzFaultyWriter }
+
+func (w *zzFaultyStreamWriter) WriteStream(p []byte, stream uint) (int, error) {
+	w.streams = append(w.streams, stream)
+	return w.zzFaultyWriter.Write(p)
+}
+
+// Write is the stream-unaware io.Writer adaptor of a multi-stream connection: the bytes go to
+// whatever stream the connection currently defaults to, recorded as zzNoStream.
+func (w *zzFaultyStreamWriter) Write(p []byte) (int, error) {
+	w.streams = append(w.streams, zzNoStream)
+	return w.zzFaultyWriter.Write(p)
+}
+
+const zzNoStream = ^uint(0)
+
+func (w *zzFaultyStreamWriter) CurrentWriterStream() uint { return 0 }
+
+func (w *zzFaultyStreamWriter) ResetWriterStream() {}
+
+func (w *zzFaultyStreamWriter) SetWriterStream(uint) uint { return 0 }
+
+func zzRefBE32(x uint32) []byte { return []byte{byte(x >> 24), byte(x >> 16), byte(x >> 8), byte(x)} }
+
+func zzRefBE64(x uint64) []byte {
+	return []byte{byte(x >> 56), byte(x >> 48), byte(x >> 40), byte(x >> 32), byte(x >> 24), byte(x >> 16), byte(x >> 8), byte(x)}
+}
+
+// zzRefAVP is the reference AVP encoder (RFC 6733 section 4.1).
+func zzRefAVP(code uint32, flags uint8, vendor uint32, payload []byte) []byte {
+	hdr := 8
+	if flags&0x80 != 0 {
+		hdr = 12
+	}
+	l := hdr + len(payload)
+	out := make([]byte, (l+3)&^3)
+	out[0], out[1], out[2], out[3] = byte(code>>24), byte(code>>16), byte(code>>8), byte(code)
+	out[4] = flags
+	out[5], out[6], out[7] = byte(l>>16), byte(l>>8), byte(l)
+	if hdr == 12 {
+		out[8], out[9], out[10], out[11] = byte(vendor>>24), byte(vendor>>16), byte(vendor>>8), byte(vendor)
+	}
+	copy(out[hdr:], payload)
+	return out
+}
+
+func zzRefHeader(ver uint8, l uint32, fl uint8, cmd, app, hbh, e2e uint32) [20]byte {
+	var r [20]byte
+	r[0] = ver
+	r[1], r[2], r[3] = byte(l>>16), byte(l>>8), byte(l)
+	r[4] = fl
+	r[5], r[6], r[7] = byte(cmd>>16), byte(cmd>>8), byte(cmd)
+	for i, v := range [4]uint32{app, hbh, e2e} {
+		_ = i
+		_ = v
+	}
+	r[8], r[9], r[10], r[11] = byte(app>>24), byte(app>>16), byte(app>>8), byte(app)
+	r[12], r[13], r[14], r[15] = byte(hbh>>24), byte(hbh>>16), byte(hbh>>8), byte(hbh)
+	r[16], r[17], r[18], r[19] = byte(e2e>>24), byte(e2e>>16), byte(e2e>>8), byte(e2e)
+	return r
+}
+
+type zzRec struct {
+	off, hdr, l int
+	code        uint32
+	flags       uint8
+	vendor      uint32
+}
+
+func (zzTempErr) Error() string   { return "zz: temporary accept error" }
+func (zzTempErr) Temporary() bool { return true }
